@@ -28,11 +28,15 @@ package ledger
 //
 // Not covered: concurrent Totals-vs-commit interleavings; rewards overflow paths.
 //
-// Mutants (bin/mut), all DETECTED — see final report:
-//  M1 totals.go DelAccount: reward units not subtracted for Online accounts
-//  M2 acctupdates.go newBlockImpl: append the previous round's totals instead of delta.Totals
-//  M3 acctupdates.go prepareCommit: persist roundTotals[offset-1] (visible only after reload)
-//  M4 totals.go ApplyRewards: Offline class not credited
+// Mutants (bin/mut ... --only), outcomes:
+//  M1 totals.go DelAccount: reward units not subtracted for Online accounts       DETECTED (depth 2)
+//  M2 acctupdates.go newBlockImpl: previous round's totals appended               DETECTED (depth 0)
+//  M3 acctupdates.go prepareCommit: roundTotals[offset-1] persisted (visible only
+//     after a flush AND a reload)                                                DETECTED (depth 3)
+//  M4 totals.go ApplyRewards: Offline class not credited                          DETECTED, but by
+//     the evaluator's own "sum of money changed" assertion (block generation fails)
+//  M5 totals.go statusField: Online accounts booked under Offline (sum-preserving,
+//     passes the evaluator's assertion)                                          DETECTED (depth 1)
 
 import (
 	"fmt"
@@ -74,9 +78,9 @@ type c12Sys struct {
 	w *c08World
 	v c12Variant
 	// shadow model
-	shLatest, shDB        basics.Round
+	shLatest, shDB         basics.Round
 	shC, shDOn, shENonpart bool
-	ops                   []int
+	ops                    []int
 	// materialised
 	done int
 	h    *c08LH
@@ -369,7 +373,7 @@ func TestVerif_C12(t *testing.T) {
 		r.Note("time budget exhausted; explorations not run: %v", skipped)
 	}
 	r.Set("lookups_compared", queries.Load())
-	cov.Rule = fmt.Sprintf("BFS over all sequences (depth <= %d) of the money/status block alphabet {pay-to-small-account, close, keyreg online, keyreg offline, keyreg non-participating, pay-from-(on|off)line-account, fund-rewards-pool} and flush-one-round / flush-max / reloadLedger, MaxAcctLookback 0 and 2; after every step, for every round in [tracker DB round, latest], Totals(round) is compared field by field with the sums of LookupAccount(round, a) over all addresses ever seen", maxDepth)
+	cov.Rule = fmt.Sprintf("BFS over all sequences (depth <= %d) of the money/status block alphabet {pay-to-small-account, close, keyreg online, keyreg offline, keyreg non-participating, pay-from-(on|off)line-account, fund-rewards-pool} and flush-one-round / flush-max / reloadLedger, MaxAcctLookback 0 and 2; after every step, for every round in [tracker DB round, latest], Totals(round) is compared field by field with the sums of LookupAccount(round, a) over all addresses ever seen; evaluations = transitions executed; a distinct class = a distinct implementation state (block history, flush boundaries, in-memory delta/cache bookkeeping)", maxDepth)
 	r.Assume("LookupAccount is taken as the per-account truth (its agreement with the block history is C08)")
 	r.Assume("tracker flushes are executed synchronously (trackerRegistry.commitRound on the calling goroutine); concurrent interleavings are not covered")
 	r.Assume("private consensus version verif-ldg-c08: vFuture, RewardsRateRefreshInterval 2, payouts off; rewards pool sized so that RewardsLevel moves by a few units per round and then stalls until the pool is funded")
